@@ -46,6 +46,16 @@ template<typename T> struct opt : sbepp::detail::optional_base<T, opt<T>>
     static T max_value() noexcept;
     static T null_value() noexcept;
 };
+template<typename T> struct req : sbepp::detail::required_base<T, req<T>>
+{
+    using sbepp::detail::required_base<T, req<T>>::required_base;
+    static T min_value() noexcept;
+    static T max_value() noexcept;
+};
+template<typename R> bool srcexprs_reqcmp(const R& a, const R& b)
+{
+    return (a == b) | (a != b) | (a < b) | (a <= b) | (a > b) | (a >= b) | a.in_range() | (a.value() == *b);
+}
 template<typename O> bool srcexprs_optcmp(const O& a, const O& b)
 {
     return (a == b) | (a != b) | (a < b) | (a <= b) | (a > b) | (a >= b) | a.has_value() | a.in_range()
@@ -71,6 +81,8 @@ def _tu_text():
             lines.append("template bool srcexprs::srcexprs_cmp(const %s&, const %s&);" % (it, it))
     for t in UNS + [SGN[u] for u in UNS]:
         lines.append("template bool srcexprs::srcexprs_optcmp(const srcexprs::opt<%s>&, const srcexprs::opt<%s>&);"
+                     % (STD[t], STD[t]))
+        lines.append("template bool srcexprs::srcexprs_reqcmp(const srcexprs::req<%s>&, const srcexprs::req<%s>&);"
                      % (STD[t], STD[t]))
     return TU % "\n".join(lines)
 
@@ -544,52 +556,54 @@ def translate(repo):
         raise TranslationError("byteswap: overloads found for %s only" % sorted(seen))
     # --- optional_base<T, Derived>: has_value, in_range, operator bool and the six comparison operators (pre-C++20 set),
     #     for the eight integer types; Derived::min/max/null_value() are opaque values
-    objs = _dump(repo, "opt")        # one dump for optional_base and srcexprs::opt: declaration ids are per clang run
-    specs = []
-    for o in objs:
-        _find(o, lambda n: n["kind"] == "ClassTemplateSpecializationDecl" and n.get("name") == "optional_base" and
-              any(c.get("kind") in ("CXXMethodDecl", "FriendDecl") for c in n.get("inner", [])), specs)
-    dobjs = []
-    for o in objs:
-        _find(o, lambda n: n["kind"] == "ClassTemplateSpecializationDecl" and n.get("name") == "opt" and
-              n.get("inner"), dobjs)
-    seen = set()
-    for sp in specs:
-        raw = _targs_raw(sp)
-        ta = _targs(sp)
-        if len(ta) != 2 or ta[0] not in STD or "srcexprs::opt" not in raw[1] or ta[0] in seen:
-            continue
-        # the int8_t instantiation also appears as `char`-like types: keep the first of each
-        decls, fr = {}, {}
-        for c in sp.get("inner", []):
-            if c.get("kind") in ("CXXMethodDecl", "CXXConversionDecl") and c.get("id"):
-                decls[c["id"]] = c
-            if c.get("kind") == "FriendDecl":
-                for f in c.get("inner", []):
-                    if f.get("kind") == "FunctionDecl" and f.get("id"):
-                        decls[f["id"]] = f
-                        if f.get("name") in CMPNAMES and any(x.get("kind") == "CompoundStmt" for x in f.get("inner", [])):
-                            fr[f["name"]] = f
-        # Derived's static members (declared only) are referenced by id from inside the bodies
-        for dsp in dobjs:
-            for c in dsp.get("inner", []):
-                if c.get("kind") == "CXXMethodDecl" and c.get("id"):
+    for base, derived, pre, need in (("optional_base", "opt", "src_opt", ("has_value", "in_range")),
+                                     ("required_base", "req", "src_req", ("in_range",))):
+        # one dump for the base and the probe's derived class: declaration ids are per clang run
+        objs = _dump(repo, "opt" if base == "optional_base" else "req")
+        specs = []
+        for o in objs:
+            _find(o, lambda n: n["kind"] == "ClassTemplateSpecializationDecl" and n.get("name") == base and
+                  any(c.get("kind") in ("CXXMethodDecl", "FriendDecl") for c in n.get("inner", [])), specs)
+        dobjs = []
+        for o in objs:
+            _find(o, lambda n: n["kind"] == "ClassTemplateSpecializationDecl" and n.get("name") == derived and
+                  n.get("inner"), dobjs)
+        seen = set()
+        for sp in specs:
+            raw = _targs_raw(sp)
+            ta = _targs(sp)
+            if len(ta) != 2 or ta[0] not in STD or ("srcexprs::%s" % derived) not in raw[1] or ta[0] in seen:
+                continue
+            decls, fr = {}, {}
+            for c in sp.get("inner", []):
+                if c.get("kind") in ("CXXMethodDecl", "CXXConversionDecl") and c.get("id"):
                     decls[c["id"]] = c
-        meth = {m.get("name"): m for m in sp.get("inner", []) if m.get("kind") in ("CXXMethodDecl", "CXXConversionDecl")
-                and any(x.get("kind") == "CompoundStmt" for x in m.get("inner", []))}
-        if set(fr) != set(CMPNAMES) or "has_value" not in meth or "in_range" not in meth:
-            continue
-        CTX.update({"this": "", "obj": {}, "subst": {}, "decls": decls, "depth": 0})
-        try:
-            defs.append(("src_opt_has_value_" + ta[0], effects(meth["has_value"])))
-            defs.append(("src_opt_in_range_" + ta[0], effects(meth["in_range"])))
-            for nm, tag in CMPNAMES.items():
-                defs.append(("src_opt_%s_%s" % (tag, ta[0]), effects(fr[nm])))
-        finally:
-            CTX.update({"this": "", "obj": {}, "subst": {}, "decls": {}, "depth": 0})
-        seen.add(ta[0])
-    if seen != set(STD):
-        raise TranslationError("optional_base: translated for %s only" % sorted(seen))
+                if c.get("kind") == "FriendDecl":
+                    for f in c.get("inner", []):
+                        if f.get("kind") == "FunctionDecl" and f.get("id"):
+                            decls[f["id"]] = f
+                            if f.get("name") in CMPNAMES and any(x.get("kind") == "CompoundStmt" for x in f.get("inner", [])):
+                                fr[f["name"]] = f
+            # Derived's static members (declared only) are referenced by id from inside the bodies
+            for dsp in dobjs:
+                for c in dsp.get("inner", []):
+                    if c.get("kind") == "CXXMethodDecl" and c.get("id"):
+                        decls[c["id"]] = c
+            meth = {m.get("name"): m for m in sp.get("inner", []) if m.get("kind") in ("CXXMethodDecl", "CXXConversionDecl")
+                    and any(x.get("kind") == "CompoundStmt" for x in m.get("inner", []))}
+            if set(fr) != set(CMPNAMES) or any(x not in meth for x in need):
+                continue
+            CTX.update({"this": "", "obj": {}, "subst": {}, "decls": decls, "depth": 0})
+            try:
+                for x in need:
+                    defs.append(("%s_%s_%s" % (pre, x, ta[0]), effects(meth[x])))
+                for nm, tag in CMPNAMES.items():
+                    defs.append(("%s_%s_%s" % (pre, tag, ta[0]), effects(fr[nm])))
+            finally:
+                CTX.update({"this": "", "obj": {}, "subst": {}, "decls": {}, "depth": 0})
+            seen.add(ta[0])
+        if seen != set(STD):
+            raise TranslationError("%s: translated for %s only" % (base, sorted(seen)))
     out = ["(* SrcExprs.v -- GENERATED on every run by harness/srcexprs.py from clang's typed AST of the CURRENT",
            "   /repo/sbepp/src/sbepp/sbepp.hpp.  Do not edit: SrcExprsProofs.v proves what these terms compute. *)",
            "From Coq Require Import ZArith String List.",
